@@ -38,6 +38,7 @@ type httpCtrl struct {
 	// v1Writes: writes go through the v1 routes whenever v1 can express them (no force on creates, no
 	// atEffectiveDate on reverts, no account metadata / runtime / schema version); reads stay on v2
 	v1Writes bool
+	reads    int
 	// writes counts the writes issued; every third one without idempotency key, dry run or schema version travels as a
 	// one-element bulk (application/json and JSON stream in turn) instead of its own route
 	writes int
@@ -720,6 +721,93 @@ func (h *httpCtrl) GetVolumesWithBalances(_ context.Context, pq common.Paginated
 			q.Set("insertionDate", "true")
 		}
 	})
+}
+
+// matchedValue returns the value of a {"$match": {key: value}} filter, the only shape the by-id reads take.
+func matchedValue(b query.Builder, key string) (any, error) {
+	raw, err := json.Marshal(b)
+	if err != nil {
+		return nil, err
+	}
+	var doc map[string]map[string]any
+	dec := json.NewDecoder(bytes.NewReader(raw))
+	dec.UseNumber()
+	if err := dec.Decode(&doc); err != nil {
+		return nil, err
+	}
+	v, ok := doc["$match"][key]
+	if !ok {
+		return nil, fmt.Errorf("by-id read with a filter other than $match %s: %s", key, raw)
+	}
+	return v, nil
+}
+
+func oneParams(rq common.ResourceQuery[any]) url.Values {
+	q := url.Values{}
+	if rq.PIT != nil && !rq.PIT.IsZero() {
+		q.Set("pit", fmtTime(rq.PIT))
+	}
+	for _, e := range rq.Expand {
+		q.Add("expand", e)
+	}
+	return q
+}
+
+// GetTransaction: GET /v2/{ledger}/transactions/{id}, or the v1 route in rotation when v1 routes are in play.
+func (h *httpCtrl) GetTransaction(_ context.Context, rq common.ResourceQuery[any]) (*ledger.Transaction, error) {
+	id, err := matchedValue(rq.Builder, "id")
+	if err != nil {
+		return nil, err
+	}
+	h.reads++
+	if h.v1Writes && h.reads%2 == 0 {
+		rec := h.doOn("/", "GET", fmt.Sprintf("/transactions/%v", id), oneParams(rq), nil, nil)
+		if rec.Code != http.StatusOK {
+			return nil, h.fail(rec)
+		}
+		t1, err := decodeData[v1Transaction](rec)
+		if err != nil {
+			return nil, err
+		}
+		tx := t1.Transaction
+		tx.ID = t1.TxID
+		return &tx, nil
+	}
+	rec := h.do("GET", fmt.Sprintf("/transactions/%v", id), oneParams(rq), nil, nil)
+	if rec.Code != http.StatusOK {
+		return nil, h.fail(rec)
+	}
+	return decodeData[ledger.Transaction](rec)
+}
+
+// GetAccount: GET /v2/{ledger}/accounts/{address}.
+func (h *httpCtrl) GetAccount(_ context.Context, rq common.ResourceQuery[any]) (*ledger.Account, error) {
+	addr, err := matchedValue(rq.Builder, "address")
+	if err != nil {
+		return nil, err
+	}
+	rec := h.do("GET", "/accounts/"+url.PathEscape(fmt.Sprint(addr)), oneParams(rq), nil, nil)
+	if rec.Code != http.StatusOK {
+		return nil, h.fail(rec)
+	}
+	return decodeData[ledger.Account](rec)
+}
+
+// GetStats: GET /v2/{ledger}/stats (or the v1 route).
+func (h *httpCtrl) GetStats(_ context.Context) (ledgercontroller.Stats, error) {
+	prefix := "/v2/"
+	if h.v1Writes {
+		prefix = "/"
+	}
+	rec := h.doOn(prefix, "GET", "/stats", nil, nil, nil)
+	if rec.Code != http.StatusOK {
+		return ledgercontroller.Stats{}, h.fail(rec)
+	}
+	out, err := decodeData[ledgercontroller.Stats](rec)
+	if err != nil {
+		return ledgercontroller.Stats{}, err
+	}
+	return *out, nil
 }
 
 func (h *httpCtrl) count(path string, rq common.ResourceQuery[any]) (int, error) {
